@@ -3,7 +3,7 @@ open Lean Pywbem.Proto Pywbem.Model.ValueMap Pywbem.Model.IntLit
 
 /-! C20 driver.
   {"op":"intlit","s":cps}                         -> {"v": "dec"|null}
-  {"op":"vm","typ":str,"values":[cps]|null,"valuemap":[cps]|null,"vd":cps|null,
+  {"op":"vm","typ":str,"values":[cps]|null,"valuemap":[cps]|null,"values_null":bool,"valuemap_null":bool,"vd":cps|null,
    "vs":[int,…],"scan":[lo,hi]|null,"strs":[cps,…]}
      -> {"exc":name}  |  {"ok":{"items":[[bin,cps],…],"tv":[out,…],"scan":[[n,out],…],"tb":[bout,…]}}
         plus "spec": {"exc":name} | {"ents":[bin,…],"tv":[…],"scan":[…]}   (the short spec, same inputs)
@@ -48,6 +48,9 @@ def scanRLE (f : Int → Except PyExc (List Char)) (lo : Int) (n : Nat) : Array 
 def handleVm (j : Json) : Json :=
   let typ := (getStr j "typ").getD ""
   let e : Elem := { typ := typ, values := strList? j "values", valuemap := strList? j "valuemap" }
+  let nullOr (k kn : String) : Option (Option (List (List Char))) :=
+    if (getBool j kn).getD false then some none else (strList? j k).map some
+  let eq : ElemQ := { typ := typ, values := nullOr "values" "values_null", valuemap := nullOr "valuemap" "valuemap_null" }
   let vd := getChars j "vd"
   let vs := (getArr j "vs").filterMap jsonToInt?
   let strs := (getArr j "strs").filterMap jsonToChars?
@@ -56,7 +59,7 @@ def handleVm (j : Json) : Json :=
     | [lo, hi] => some (lo, (hi - lo + 1).toNat)
     | _ => none
   let modelPart : List (String × Json) :=
-    match create e vd with
+    match createQ eq vd with
     | .error x => [("exc", Json.str x.name)]
     | .ok vm =>
       [("ok", Json.mkObj [
